@@ -22,25 +22,25 @@ META = {
         "technique": "runtime monitoring: recorded chunk stream vs scanning position model",
     },
     "C03": {
-        "level": "runtime monitor: the non-final chunk stream and map() of the same object are both turned into attribution tables (map decoded by an independent VLQ decoder, lookup rule of the format) and compared at every character position, both column settings, plus 'map() is None iff no mapped chunk'",
+        "level": "runtime monitor: the non-final chunk stream and map() of the same object are both turned into attribution tables (map decoded by an independent VLQ decoder, lookup rule of the format) and compared at every character position, both column settings and both call orders (stream then map(), map() then stream), plus 'map() is None iff no mapped chunk'; equal CachedSource nodes of a tree are one shared instance in every second case",
         "design_ref": "DESIGN.md section 4, C03",
         "note": _TB + "; three known findings (KNOWN_FINDINGS.txt) are attributed by precise triggers, everything else is reported",
         "technique": "runtime monitoring: attribution-function equality between recorded stream and decoded map()",
     },
     "C05": {
-        "level": "runtime monitor over call histories: every observation (source, rope, buffer, size, to_writer, stream, on the object, on fresh clones and on clones taken mid-history) is compared with an executable splice model of the replacement list at that moment; histories interleave mutators and observers so a stale cached order is visible at the next observation",
+        "level": "runtime monitor over call histories: every observation (source, rope, buffer, size, to_writer, stream, on the object, on fresh clones and on clones taken mid-history) is compared with an executable splice model of the replacement list at that moment; histories interleave mutators and observers so a stale cached order is visible at the next observation; clones live on and the history continues on the object and its clones in turn (each with its own model); a panic on an in-domain history is a violation",
         "design_ref": "DESIGN.md section 4, C05",
         "note": _TB,
         "technique": "runtime monitoring: history replay against an executable sequential model",
     },
     "C07": {
-        "level": "runtime monitor comparing the five content views with each other and with the byte/text model of the spec, plus fault injection: a writer failing after k bytes (short writes included) for every k (thorough) or sampled k (quick)",
+        "level": "runtime monitor comparing the five content views (taken in a random order, again in reverse order, and on a clone) with each other and with the byte/text model of the spec, plus fault injection: a writer failing after k bytes (short writes included) for every k (thorough) or sampled k (quick)",
         "design_ref": "DESIGN.md section 4, C07",
         "note": _TB,
         "technique": "runtime monitoring with fault injection at the writer boundary",
     },
     "C11": {
-        "level": "runtime monitor: every map() is decoded by the reference decoder and checked for charset, strictly increasing positions before the end of source() and in-table indices; every stream (4 modes) is checked online for announce-before-use and dense announced indices",
+        "level": "runtime monitor: every map() is decoded by the reference decoder and checked for charset, strictly increasing positions before the end of source() and in-table indices; every stream (4 modes) is checked online for announce-before-use and dense announced indices; the object is asked after a random prelude of observer calls, equal CachedSource nodes are one shared instance in every second case",
         "design_ref": "DESIGN.md section 4, C11",
         "note": _TB,
         "technique": "runtime monitoring: online trace checker over stream events + decoded-map invariants",
@@ -52,13 +52,13 @@ META = {
         "technique": "runtime monitoring: metamorphic relation oracle over attribution functions",
     },
     "C04": {
-        "level": "runtime monitor with an independent ground truth: byte provenance of every output character is computed from the spec by the concat / splice / tokenizer models, and the decoded map() is checked against it clause by clause (segment targets, surviving original characters, raw text unmapped, statement starts exact, tables, columns=false line attribution)",
+        "level": "runtime monitor with an independent ground truth: byte provenance of every output character is computed from the spec by the concat / splice / tokenizer models, and the decoded map() is checked against it clause by clause (segment targets, surviving original characters, raw text unmapped, statement starts exact, tables, columns=false line attribution); the object is asked after a random prelude of observer calls, equal CachedSource nodes are one shared instance in every second case",
         "design_ref": "DESIGN.md section 4, C04",
         "note": _TB + "; the line break of an empty original line (a token of its own that the documented splitting rule leaves unmapped) is a don't-care for clause (b)",
         "technique": "runtime monitoring: decoded map() vs byte-provenance model over generated trees",
     },
     "C06": {
-        "level": "runtime monitor: ConcatSource - attribution through the composite's map() at every position of child k equals child k's own map() (file, content, line, column, name; first mapped child piece per line for columns=false); ReplaceSource - every surviving inner character and every replacement content character is looked up in map() and compared with the expectation derived from the recorded inner chunk stream and the splice position map (exact column when the recorded content matches entirely or not at all, bounds otherwise)",
+        "level": "runtime monitor: ConcatSource - attribution through the composite's map() at every position of child k equals child k's own map() (file, content, line, column, name; first mapped child piece per line for columns=false); ReplaceSource - every surviving inner character and every replacement content character is looked up in map() and compared with the expectation derived from the recorded inner chunk stream and the splice position map (exact column when the recorded content matches entirely or not at all, bounds otherwise); the composite is asked after a random prelude of observer calls",
         "design_ref": "DESIGN.md section 4, C06",
         "note": _TB,
         "technique": "runtime monitoring: child-vs-composite attribution oracle with splice position map",
@@ -76,7 +76,7 @@ META = {
         "technique": "runtime monitoring: reference map composition oracle",
     },
     "C16": {
-        "level": "runtime monitor with a flat String as executable model: exhaustive small scope (every rope over <=3/<=4 pieces from 7 pieces incl. empty, line break and 1-4 byte characters, built by from_iter / new+add / from+add / append; every byte index, every slice range, every differently chunked prefix / equal / unequal partner, lines and slices re-observed) followed by random deeper programs; an in-domain panic is a violation",
+        "level": "runtime monitor with a flat String as executable model: exhaustive small scope (every rope over <=3/<=4 pieces from 7 pieces incl. empty, line break and 1-4 byte characters, built by from_iter / new+add / from+add / append; every byte index, every slice range in every start/end bound kind incl. usize::MAX, every differently chunked prefix / equal / unequal partner incl. same-length partners that differ in one character or in character structure, lines and slices re-observed) followed by random deeper programs; an in-domain panic is a violation",
         "design_ref": "DESIGN.md section 4, C16",
         "note": _TB,
         "technique": "runtime monitoring: model-based differential checking, exhaustive small scope + random programs",
@@ -94,19 +94,19 @@ META = {
         "technique": "runtime monitoring: differential testing against a reference VLQ codec, exhaustive delta sweep",
     },
     "C14": {
-        "level": "runtime monitor: for random trees, a second build from the same constructor calls, a deep clone and a tree one edit away, ==/hash (through BoxSource, &dyn Source, update_hash) are taken before and after random observer histories applied to one operand only, and all observers are compared between equal values / clones and between first and second call (streams and maps by what they attribute)",
+        "level": "runtime monitor: for random trees, a second build from the same constructor calls, a deep clone and a tree one edit away, ==/hash (through BoxSource, &dyn Source, update_hash) are taken before and after random observer histories applied to one operand only, and all observers are compared between equal values / clones and between first and second call (streams and maps by what they attribute); in every second case maps with equal tables are derived from each other by clone() + setters (shared allocations)",
         "design_ref": "DESIGN.md section 4, C14",
         "note": _TB + "; one known finding (non-ASCII text through CachedSource replay) attributed by a precise trigger",
         "technique": "runtime monitoring: history-perturbed equality / hash / observer coherence oracle",
     },
     "C20": {
-        "level": "runtime monitor: for pairs one edit apart (28 edit kinds at random depth) and independent pairs whose source()/buffer()/map() differ, hashes (FNV, SipHash, &dyn, update_hash) must differ and == must be false; hashes of a shared case stream are logged by 16 separate worker processes, recomputed in a second thread and after observer histories, and the merged log must be a function",
+        "level": "runtime monitor: for pairs one edit apart (28 edit kinds at random depth) and independent pairs whose source()/buffer()/map() differ, hashes (FNV, SipHash, &dyn, update_hash) must differ and == must be false (in every second case maps with equal tables share their allocations: clone() + setters); hashes of a shared case stream are logged by 16 separate worker processes, recomputed in a second thread and after observer histories, and the merged log must be a function",
         "design_ref": "DESIGN.md section 4, C20",
         "note": _TB + "; a genuine 64-bit collision would be reported (expected ~1e-7 per run)",
         "technique": "runtime monitoring: sensitivity oracle over one-edit pairs + offline join of per-process hash logs",
     },
     "C15": {
-        "level": "runtime monitor with an independent JSON parser (serde_json) as oracle: random SourceMap values with hostile strings are serialised by to_json / to_writer, parsed independently and by the three crate entry points; hand-spelled documents (nulls, missing arrays, shuffled keys, \\u escapes, surrogate pairs) are parsed by the crate and compared with the expected value",
+        "level": "runtime monitor with an independent JSON parser (serde_json) as oracle: random SourceMap values with hostile strings are serialised by to_json / to_writer, parsed independently and by the three crate entry points; values derived by clone() + each setter are serialised and round-tripped as well (the original must stay unchanged); hand-spelled documents (nulls, missing arrays, shuffled keys, \\u escapes, surrogate pairs) are parsed by the crate and compared with the expected value",
         "design_ref": "DESIGN.md section 4, C15",
         "note": _TB + "; serde_json is the trusted JSON oracle",
         "technique": "runtime monitoring: differential round-trip against an independent JSON implementation",
@@ -120,13 +120,13 @@ META = {
     "C18": {
         "level": "three complementary runtime monitors: (1) real OS threads under a token-passing scheduler that switches only at the guarded schedule points inside the library (hook H3) and at callbacks of a user-defined child source; schedules enumerated by DFS with a pre-emption bound plus random walks (tens of thousands of schedules, distinct traces counted); every answer compared with a single-threaded copy, cache stores that replace a value counted by hook, logical deadlock detection through lock probes; the same under AddressSanitizer; (2) free-running 4-8 thread stress under ThreadSanitizer and AddressSanitizer; (3) small thread programs under Miri (data races, dangling borrows, deadlocks)",
         "design_ref": "DESIGN.md section 4, C18",
-        "note": _TB + "; interleavings are explored at hook granularity with bounded pre-emptions, weak-memory effects only as far as TSan / Miri model them; trees with a CachedSource beneath a ReplaceSource are excluded because their sequential answers depend on the call history (known finding under C03)",
+        "note": _TB + "; interleavings are explored at hook granularity with bounded pre-emptions, weak-memory effects only as far as TSan / Miri model them; trees with a CachedSource beneath a ReplaceSource are excluded because their sequential answers depend on the call history (known finding under C03); the oracle presumes history-independent sequential answers (C10); a case whose single-threaded reference panics is not evaluated (C17)",
         "technique": "runtime monitoring: controlled-schedule exploration of real threads + ThreadSanitizer / AddressSanitizer / Miri stress",
     },
     "C19": {
         "level": "runtime monitors and sanitizers over rope programs (exhaustive small scope + random) and hostile source trees streamed with callbacks that retain every borrow until the outermost stream call returns: (1) debug build with precondition hooks (H4) immediately before each of the 14 unsafe operations, every site must be reached; (2) the same workload under AddressSanitizer with the hooks in count-only mode; (3) a Miri-sized variant under Miri (Stacked Borrows, bounds, UTF-8 validity, dangling references)",
         "design_ref": "DESIGN.md section 4, C19",
-        "note": _TB + "; red-zone tools miss intra-object overflows, Miri covers small inputs only: a clean run is 'no report on these executions', not memory safety; the concurrent half of C19 (schedules of C18) runs under C18's AddressSanitizer / Miri stages",
+        "note": _TB + "; red-zone tools miss intra-object overflows, Miri covers small inputs only: a clean run is 'no report on these executions', not memory safety; the concurrent half of C19 re-runs C18's scheduled / stress / Miri workloads with RSV_MEMORY_ONLY=1: only failed unsafe preconditions, the write-once cache invariant, invalid UTF-8 and sanitizer / Miri reports count, behavioural differences are left to C18 and C16",
         "technique": "runtime monitoring: precondition assertions at hooked unsafe sites + AddressSanitizer + Miri",
     },
 }
